@@ -343,21 +343,28 @@ public:
 
   iterator& operator++() {
     assert(info.cur.get() != nullptr);
-    auto next = info.cur->next.load(std::memory_order_relaxed);
-    guard_ptr tmp_guard;
-    // (1) - this acquire-load synchronizes-with the release-CAS (8, 9, 10, 12, 15)
-    if (next.mark() == 0 && tmp_guard.acquire_if_equal(info.cur->next, next, std::memory_order_acquire)) {
-      info.prev = &info.cur->next;
-      info.save = std::move(info.cur);
-      info.cur = std::move(tmp_guard);
-    } else {
-      // cur is marked for removal
-      // -> use find to remove it and get to the next node with a key >= cur->key
-      // Note: we have to copy key here!
-      Key key = info.cur->data.value.first;
-      hash_t h = info.cur->data.get_hash();
-      backoff backoff;
-      map->find(h, key, bucket, info, backoff);
+    for (;;) {
+      auto next = info.cur->next.load(std::memory_order_relaxed);
+      if (next.mark() != 0) {
+        // cur is marked for removal
+        // -> use find to remove it and get to the next node with a key >= cur->key
+        // Note: we have to copy key here!
+        Key key = info.cur->data.value.first;
+        hash_t h = info.cur->data.get_hash();
+        backoff backoff;
+        map->find(h, key, bucket, info, backoff);
+        break;
+      }
+      guard_ptr tmp_guard;
+      // (1) - this acquire-load synchronizes-with the release-CAS (8, 9, 10, 12, 15)
+      if (tmp_guard.acquire_if_equal(info.cur->next, next, std::memory_order_acquire)) {
+        info.prev = &info.cur->next;
+        info.save = std::move(info.cur);
+        info.cur = std::move(tmp_guard);
+        break;
+      }
+      // cur's successor has changed (but cur is still in the map) -> try again with the new successor;
+      // using find here would take us back to cur itself.
     }
     assert(info.prev == &map->buckets[bucket] || info.cur.get() == nullptr ||
            (info.save.get() != nullptr && &info.save->next == info.prev));
